@@ -191,6 +191,7 @@ def lock_discipline(ctx):
 
 def register(PROPS):
     PROPS["C10"] = {
+        "generated_layer": True,   # event.go read (which ID counts as dispatched)
         "gens": [{"id": "C10", "quick": 30000, "thorough": 800000, "thorough_seeds": 12}],
         "compare": cmp_client,
         "shrink_candidates": shrink_client,
@@ -217,6 +218,7 @@ def register(PROPS):
         "assumptions": CLIENT_ASSUME,
     }
     PROPS["C12"] = {
+        "generated_layer": True,   # event.go read (which retry values are reported)
         "gens": [{"id": "C12", "quick": 60000, "thorough": 1500000, "thorough_seeds": 12}],
         "compare": cmp_client,
         "shrink_candidates": shrink_client,
